@@ -129,7 +129,8 @@ impl CheckInternal for fol::Formula {
                     }
 
                     // Check variables in quantifications are the same as the terms in the atom
-                    if uniques != terms_as_vars {
+                    // (and that no variable occurs twice among the terms)
+                    if uniques != terms_as_vars || a.terms.len() != len {
                         return Err(ProofOutlineError::DefinedPredicateVariableListMismatch(
                             self.clone(),
                         ));
